@@ -5,7 +5,7 @@ import (
 	"os"
 	"strconv"
 
-	_ "verif/harness/checks"
+	"verif/harness/checks"
 	"verif/harness/core"
 )
 
@@ -41,6 +41,16 @@ func main() {
 			os.Exit(usage())
 		}
 		os.Exit(core.ReplayMain(os.Args[2]))
+	case "racepass":
+		// only meaningful in the -race build (bin/qfmc-race)
+		tier, only := "quick", ""
+		if len(os.Args) > 2 {
+			tier = os.Args[2]
+		}
+		if len(os.Args) > 3 {
+			only = os.Args[3]
+		}
+		os.Exit(checks.RacePassMain(tier, only))
 	case "list":
 		for _, id := range core.IDs() {
 			fmt.Println(id)
